@@ -136,7 +136,8 @@ static std::string repo_frame(const std::string& stack) {
         // frames of the C++ library and of sanitizer interceptors are skipped; if the first frame below them belongs to the
         // harness (its output capture, scripted peers, kernel) the access is not the repository's
         if (line.find(" /verif/") != std::string::npos || line.find("sk::") != std::string::npos || line.find("wl::") != std::string::npos || line.find("hz::") != std::string::npos || line.find("verif_w4::") != std::string::npos) return "";
-        const std::size_t at = line.find("/repo/src/") != std::string::npos ? line.find("/repo/src/") : line.find("/repo/include/");
+        static const std::string src_dir = std::string(REPO_ROOT) + "/src/", inc_dir = std::string(REPO_ROOT) + "/include/";
+        const std::size_t at = line.find(src_dir) != std::string::npos ? line.find(src_dir) : line.find(inc_dir);
         if (at == std::string::npos) continue;
         std::string file = line.substr(at, line.find_first_of(": ", at) - at);
         const std::size_t slash = file.rfind('/');
@@ -621,7 +622,7 @@ static std::string sanitizer_key(const std::string& prop, pid_t pid, std::string
             if (colon2 != std::string::npos) loc = loc.substr(0, colon2);
             // prefer the innermost frame that lies in the repository (the SUMMARY names an interceptor such as memcpy otherwise)
             if (loc.find(".cpp") == std::string::npos && loc.find(".hpp") == std::string::npos) {
-                const std::size_t rp = text.find("/repo/");
+                const std::size_t rp = text.find(std::string(REPO_ROOT) + "/");
                 if (rp != std::string::npos && rp < p) {
                     std::string rloc = text.substr(rp, text.find_first_of(" \n", rp) - rp);
                     const std::size_t rs = rloc.rfind('/');
